@@ -58,6 +58,8 @@ func (s *PStmt) Line() string {
 		return fmt.Sprintf("\t%s %s", s.Mn, s.Label)
 	case "movl":
 		return fmt.Sprintf("\tMOV %s,%s", s.Reg.Text, s.Label)
+	case "lgdt":
+		return fmt.Sprintf("\tLGDT [%s]", s.Label)
 	case "data":
 		var t []string
 		for _, it := range s.Items {
@@ -194,6 +196,16 @@ func (p *Prog) DoWalk(out []byte) *Walk {
 			}
 			lane := rw / 8
 			w.Obs = append(w.Obs, Obs{Stmt: i, Off: off + in.Len - lane, Width: lane, Label: s.Label, Value: int64(uint64(in.Ops[1].Imm) & widthMask(rw)), Dollar: s.Label == "$"})
+			w.Len[i] = in.Len
+			off += in.Len
+		case "lgdt":
+			in := Decode(out[minInt(off, len(out)):], mode)
+			w.Decodes = append(w.Decodes, DecQ{Bytes: clip(out[minInt(off, len(out)):], 15), Mode: mode})
+			if in.Bad != "" || in.Op != "LGDT" || len(in.Ops) != 1 || in.Ops[0].Kind != KMem || in.Ops[0].Coef != [8]int{} || in.OpSize != mode || in.Ops[0].ASize != mode {
+				return fail(i, "encoding", fmt.Sprintf("statement %d `LGDT [%s]` does not decode to LGDT with an absolute operand of the mode's size at offset %d: %s", i, s.Label, off, in))
+			}
+			lane := mode / 8
+			w.Obs = append(w.Obs, Obs{Stmt: i, Off: off + in.Len - lane, Width: lane, Label: s.Label, Value: int64(uint64(in.Ops[0].Disp) & widthMask(mode))})
 			w.Len[i] = in.Len
 			off += in.Len
 		case "jmp":
